@@ -165,6 +165,26 @@ func main() {
 	var terms []string
 	var tagLines []string
 	results := make([]Result, len(inputs))
+	// the inputs being executed right now are kept in <out>/<driver>.inflight: when the implementation
+	// kills the process (a panic in one of its goroutines, a detected data race), the check reads the
+	// file, re-runs each candidate alone and reports the one that dies as the failing input
+	inflightPath := filepath.Join(*out, name+".inflight")
+	var inflightMu sync.Mutex
+	inflight := map[int]string{}
+	mark := func(i int, in string, on bool) {
+		inflightMu.Lock()
+		defer inflightMu.Unlock()
+		if on {
+			inflight[i] = in
+		} else {
+			delete(inflight, i)
+		}
+		var l []string
+		for _, x := range inflight {
+			l = append(l, x)
+		}
+		os.WriteFile(inflightPath, []byte(strings.Join(l, "\n")), 0o644)
+	}
 	if d.Parallel > 1 {
 		sem := make(chan struct{}, d.Parallel)
 		var wg sync.WaitGroup
@@ -174,15 +194,19 @@ func main() {
 			go func(i int, in string) {
 				defer wg.Done()
 				defer func() { <-sem }()
+				mark(i, in, true)
 				results[i] = d.Exec(in)
+				mark(i, in, false)
 			}(i, in)
 		}
 		wg.Wait()
 	} else {
 		for i, in := range inputs {
+			os.WriteFile(inflightPath, []byte(in), 0o644)
 			results[i] = d.Exec(in)
 		}
 	}
+	os.Remove(inflightPath)
 	for i, in := range inputs {
 		res := results[i]
 		terms = append(terms, res.Term)
